@@ -195,6 +195,43 @@ class Run(object):
                 kw['reverse'] = True
             expect(outcome(lambda: s.sort(**kw)), ('ok', None), 'result[sort]')
             L.sort(**kw)
+        elif name == 'sort-fails':
+            # the key gives one item a value that cannot be compared with the others: the sort raises TypeError
+            # part-way (a plain list is then left as some permutation of itself); every read must still agree
+            victim = op[1]
+            kw = {'key': (lambda x: None if x == victim else x)}
+            if op[2]:
+                kw['reverse'] = True
+            want = outcome(lambda: sorted(L, **kw))
+            got = outcome(lambda: s.sort(**kw))
+            if want[0] == 'ok':
+                expect(got, ('ok', None), 'result[sort]')
+                L.sort(**kw)
+            else:
+                expect(got, want, 'result[sort-fails]')
+                now = outcome(lambda: list(s))
+                if now[0] != 'ok' or sorted(now[1]) != sorted(L) or len(now[1]) != len(L):
+                    self.fail('state[sort-fails]', 'after the failed sort the set iterates as %s; it held %s' % (trim(now), trim(L)))
+                L[:] = now[1]
+                if st is not None:
+                    st.count('failed_sorts')
+        elif name == 'update-fails':
+            items, j = op[1], min(op[2], len(op[1]))
+
+            def failing():
+                for i, x in enumerate(items):
+                    if i >= j:
+                        break
+                    yield x
+                raise ValueError('iterable failed')
+            expect(outcome(lambda: s.update(failing())), ('exc', 'ValueError'), 'result[update-fails]')
+            cands = [uniq(L + items[:n]) for n in range(j + 1)]
+            now = outcome(lambda: list(s))
+            if now[0] != 'ok' or now[1] not in cands:
+                self.fail('state[update-fails]', 'after the failed update the set iterates as %s; permitted %s' % (trim(now), trim(cands)))
+            L[:] = now[1]
+            if st is not None:
+                st.count('failed_updates')
         elif name == 'reverse':
             expect(outcome(s.reverse), ('ok', None), 'result[reverse]')
             L.reverse()
@@ -317,6 +354,13 @@ class Check(object):
             kind = 'iset-messy'
         n = r.choice([0, 1, 2, 3, 5])
         items = [r.choice(pool) for _ in range(n)]
+        if r.random() < 0.12:
+            # a big operand overlapping self (bulk code paths; a set's own iteration order is what it contributes)
+            n = r.choice([32, 33, 40, 64, 100, 300])
+            base = r.choice([0, 0, len(pool) // 2, 7])
+            items = list(range(base, base + n))
+            if r.random() < 0.5:
+                r.shuffle(items)
         if kind == 'list' and items and r.random() < 0.5:
             items = items + [items[0]]
         return [kind, items]
@@ -334,8 +378,13 @@ class Check(object):
             return ['pop'] if r.random() < 0.3 else ['pop', ('i', r.random())]
         if k == 'clear':
             return ['clear']
+        if k == 'sort' and r.random() < 0.3:
+            return ['sort-fails', x, r.random() < 0.3]        # comparisons raise part-way through the sort
         if k == 'sort':
             return ['sort', r.choice(list(SORTKEYS)), r.random() < 0.3]
+        if k == 'update' and r.random() < 0.15:
+            return ['update-fails', [r.choice(pool + [len(pool) + 1, len(pool) + 2]) for _ in range(r.choice([1, 2, 4]))],
+                    r.randint(0, 4)]
         if k == 'reverse':
             return ['reverse']
         if k == 'update':
